@@ -44,8 +44,8 @@ CLAIMED = {
        'whose start/join order is chosen by the solver, symbolic failing subsets (action raises / link open fails), symbolic argument lists; '
        'also with the real SyncCrazyflie on a fake Crazyflie. Exactly-once, argument, ordering, join-before-return, raise-iff-failed with chained cause, '
        'close-all-on-failure and open-twice claims asserted on every schedule.',
-  note='Swarm size <= 3 (quick) / 4 (thorough); switches only at Thread.start/join and between whole task bodies; args_dict lacking a URI, '
-       'BaseException from actions and duplicate URIs are outside.',
+  note='Swarm size <= 3 (quick) / 4 (thorough); switches only at Thread.start/join and between whole task bodies; for parallel_safe an args_dict lacking a URI '
+       'is a precondition violation (for parallel it must not raise: parallel[call-level problems]); BaseException from actions and duplicate URIs are outside.',
   tech=TECH, ref='DESIGN.md §3 C19'),
  'C20': dict(
   text='RadioDriver.connect/parse_uri per URI shape with symbolic content (dongle id digits, channel digits, 1..10 hex address characters of either case, '
@@ -127,11 +127,15 @@ CLAIMED = {
   note='Element ids/lengths and which float is symbolic are forked, contents symbolic; PyYAML and the file system are replaced by lossless stores; NaN/inf and unknown 1-wire element ids are outside.',
   tech=TECH, ref='DESIGN.md §3 C14'),
  'C15': dict(
-  text='RESTRICTED to the rigid-motion laws of Pose: the real Pose code runs on numpy object arrays of symbolic reals; inverse (point and pose), associativity, composition == sequential application, '
-       'composition stays orthonormal, scaling and input immutability are non-linear real arithmetic obligations proved through chains of small lemmas (z3, cvc5 as fallback).',
-  note='Decided over the reals. V1<->V2<->Cartesian<->projection conversions, unit length of the float32 Cartesian vector, rotation-vector/quaternion views (scipy) and the solver\'s vectorised projection are NOT decided '
-       '(transcendental / compiled code). Orthogonal matrices are 9 reals with R^T R = I (and R R^T = I where the row form is needed).',
-  tech='symbolic execution of the real numpy code on object arrays (CrossHair real-number model) + NRA obligations discharged by z3/cvc5', ref='DESIGN.md §3 C15, §4'),
+  text='Two groups of harnesses on the real code. (1) Rigid-motion laws of Pose on numpy object arrays of symbolic reals: inverse (point and pose), associativity, composition == sequential application, '
+       'composition stays orthonormal, scaling, input immutability: non-linear real arithmetic obligations proved through chains of small lemmas (z3, cvc5 as fallback). '
+       '(2) LighthouseBsVector conversions in the field of view (|angles| <= 0.98 rad): V1 angles <-> projection, V1 angles <-> Cartesian (unit length, forward, from_cart of any length), '
+       'V1 -> V2 -> V1 and V2 -> V1 -> V2, sign conventions; decided over the reals with ABSTRACT trigonometry: math.tan/atan/atan2/asin/sin/cos are uninterpreted functions constrained by ground '
+       'instances of standard identities (vf/plugins/trig.py), each conversion law proved by a harness-side chain of solver-discharged links.',
+  note='Decided over the reals (float32/float64 rounding outside). The trigonometric identities instantiated by the plugin are trusted mathematics (listed in vf/plugins/trig.py); a counterexample under the abstraction '
+       'is reported only if it reproduces with libm. Rotation-vector/quaternion views (compiled scipy), directions outside the field of view and the geometry solver\'s vectorised numpy projection are NOT decided. '
+       'Orthogonal matrices are 9 reals with R^T R = I (and R R^T = I where the row form is needed).',
+  tech='symbolic execution of the real Python/numpy code (CrossHair real-number model; trigonometric functions as uninterpreted functions with ground identity instances) + NRA/UF obligations discharged by z3/cvc5', ref='DESIGN.md §3 C15, §4, §7.10'),
  'C16': dict(
   text='RESTRICTED to everything around the optimiser: with _find_transformation stubbed by an arbitrary symbolic transformation, align applies the one returned transformation to every base station, '
        'the returned transformation is flips o raw, rigid application preserves distances and relative orientation, the de-flip decision logic meets its postconditions, _scale_system multiplies every translation '
